@@ -50,6 +50,7 @@ func checkC08(w *World, r *Report) {
 	r.Rule("C08.same", "P6", "pool send: the value added to Sent, the value passed to account creation and the value transferred are the same amount; direct creation: the coins vested and the coins transferred are the same Coins", 4)
 	r.Rule("C08.vested", "P6", "original vesting depends on amount and on the vesting type's Free, passes through TruncateInt and never a rounding-up operator; the transferred coin does not depend on Free", 3)
 	r.Rule("C08.schedule", "P5,P6,P7", "restart: (start,end) depend on block time and LockupPeriod, end also on VestingPeriod; no restart: both are the pool's LockEnd; account start = max(lockEnd, now) (ordering table); end passed through; direct creation passes the message's start and end unchanged", 9)
+	r.Rule("C08.pool", "P8", "sibling agreement: the pool a send debits is selected by exact equality of the stored name with the requested name, the same comparison that keeps pool names unique per owner at creation", 2)
 	r.Rule("C08.fresh", "P5", "the account written by account creation is built from NewAccountWithAddress(to) of the same address, as a ContinuousVestingAccount with the given original vesting, start and end", 4)
 	if !ro.checkFloors(r) {
 		return
@@ -157,6 +158,56 @@ func checkC08(w *World, r *Report) {
 		r.Check(rec == toP, "C08.fresh", "newVestingAccount: transfer recipient is the created account", w.Pos(xfer.Instr.Pos()), "same address value", "coins are sent to another address than the created account")
 	}
 
+	// ---------- C08.pool ----------
+	// the pool debited is the pool named: selected by exact equality of the stored name with the requested name -
+	// the very comparison by which pool names are kept unique per owner (addVestingPool, checkDuplications)
+	{
+		nameP := paramOfType(send, "string", 2) // (owner, toAddr, vestingPoolName)
+		var pl *rangeLoop
+		for _, l := range rangeLoops(send) {
+			l := l
+			if l.Over != nil && loadOfField(l.Over, "VestingPools", nil) {
+				pl = &l
+			}
+		}
+		if pl == nil || nameP == nil {
+			r.Unk("C08.pool", "selection of the pool to debit", w.Pos(send.Pos()), "loop over the owner's pools not found")
+		} else {
+			in := loopBlocks(pl.Header)
+			n, ok := 0, true
+			for b := range in {
+				if b == pl.Header {
+					continue
+				}
+				i := blockIf(b)
+				if i == nil {
+					continue
+				}
+				n++
+				base, _ := stripNot(i.Cond)
+				bo, isB := base.(*ssa.BinOp)
+				exact := isB && (bo.Op == token.EQL || bo.Op == token.NEQ) &&
+					(loadOfField(bo.X, "Name", nil) && bo.Y == ssa.Value(nameP) || loadOfField(bo.Y, "Name", nil) && bo.X == ssa.Value(nameP))
+				if !exact {
+					ok = false
+				}
+			}
+			r.Check(ok && n == 1, "C08.pool", "the pool debited is selected by exact equality with the requested name", w.Pos(pl.Body.Instrs[0].Pos()), "pool.Name == vestingPoolName", "the pool is not selected by exact equality of its name with the requested name, while names are kept unique by exact equality only: with two names that the looser test identifies, another pool than the one named is debited (its counter, its availability, its vesting type)")
+			// sibling: uniqueness at creation uses the same comparison
+			if add := w.Func("x/cfevesting/keeper.Keeper.addVestingPool"); add != nil {
+				okU := false
+				for _, b := range add.Blocks {
+					if i := blockIf(b); i != nil {
+						base, _ := stripNot(i.Cond)
+						if bo, isB := base.(*ssa.BinOp); isB && bo.Op == token.EQL && (loadOfField(bo.X, "Name", nil) || loadOfField(bo.Y, "Name", nil)) {
+							okU = true
+						}
+					}
+				}
+				r.Check(okU, "C08.pool", "pool names are unique per owner by exact equality", w.Pos(add.Pos()), "addVestingPool rejects an equal name", "no exact-equality uniqueness test at pool creation")
+			}
+		}
+	}
 	// ---------- C08.schedule ----------
 	// (1) restart flag
 	restartP := paramOfType(send, "bool", 0)
